@@ -25,7 +25,7 @@ func init() {
 			"scalar functions are compared with a relative tolerance of 1e-12 so a benign reformulation cannot alarm; mapping errors are certain to be seen because operand values are unique per position",
 			"Eq/Ne/Equals operands are either bit-identical or differ by >= 1e-3 at a position (far above the library's absolute tolerance)",
 		},
-		FloorQuick: 3000, FloorThor: 30000,
+		FloorQuick: 30000, FloorThor: 200000,
 		Exhaustive: func(string) bool { return false },
 		Run:        runC03,
 	})
@@ -76,7 +76,7 @@ func valueClass(r *rand.Rand, class int, shape []int) (*ref.T, string) {
 }
 
 func runC03(c *fw.Ctx) {
-	R := c.Pick(4, 6)
+	R := c.Pick(5, 6)
 	shapes := Shapes(0, R, 3)
 
 	// ---- unary operations ----
@@ -138,7 +138,7 @@ func runC03(c *fw.Ctx) {
 	}
 
 	// ---- Add/Sub/Mul/Div over all broadcast-compatible pairs ----
-	Rb := c.Pick(3, 4)
+	Rb := c.Pick(4, 5)
 	for _, dst := range Shapes(0, Rb, 3) {
 		srcs := BroadcastSources(dst)
 		for _, sa := range srcs {
@@ -154,7 +154,7 @@ func runC03(c *fw.Ctx) {
 		}
 	}
 	// sampled high-rank pairs
-	for i := 0; i < c.Pick(1000, 8000); i++ {
+	for i := 0; i < c.Pick(4000, 40000); i++ {
 		c.Case(func(k *fw.K) {
 			dst := RandShape(k.Rng, 5, 6, 3)
 			srcs := BroadcastSources(dst)
